@@ -34,7 +34,7 @@ def verified(m):
 
 brk = sorted(m for m in M if m.split("-")[1].startswith("m"))
 pre = sorted(m for m in M if m.split("-")[1].startswith("p"))
-print("**Breaking changes** (m1, m2: round 1; m3, m4: round 2; m5, m6: round 3; m7, m8: round 4; m9, m10: round 5; m11, m12: round 6; m13, m14: round 7; m15, m16: round 8; m17, m18: round 9)\n")
+print("**Breaking changes** (m1, m2: round 1; m3, m4: round 2; m5, m6: round 3; m7, m8: round 4; m9, m10: round 5; m11, m12: round 6; m13, m14: round 7; m15, m16: round 8; m17, m18: round 9; m19, m20: round 10)\n")
 print("| change | what it does | checks as they were when it arrived | own check now | other properties firing now | re-verified |")
 print("|---|---|---|---|---|---|")
 for m in brk:
@@ -45,7 +45,7 @@ for m in brk:
         ownr = "not detected (outside static reach, see text)"
     others = "; ".join(f"{p}: {', '.join(v[1]) or 'exit 2'}" for p, v in sorted(r.items()) if p != own and v[0] != 0)
     print(f"| {m} | {short(m)} | {F.get(m, '?')} | {ownr} | {others or '-'} | {verified(m)} |")
-print("\n**Behaviour-preserving refactorings** (p1, p2: round 2; p3, p4: round 3; p5, p6: round 4; p7, p8: round 5; p9, p10: round 6; p11, p12: round 7; p13, p14: round 8; p15, p16: round 9; every check must stay silent)\n")
+print("\n**Behaviour-preserving refactorings** (p1, p2: round 2; p3, p4: round 3; p5, p6: round 4; p7, p8: round 5; p9, p10: round 6; p11, p12: round 7; p13, p14: round 8; p15, p16: round 9; p17, p18: round 10; every check must stay silent)\n")
 print("| change | what it does | checks as they were when it arrived | now | baseline with both of the round applied |")
 print("|---|---|---|---|---|")
 for m in pre:
@@ -64,6 +64,8 @@ n7 = [m for m in brk if m.endswith(("m13", "m14"))]
 p7 = [m for m in pre if m.endswith(("p11", "p12"))]
 n8 = [m for m in brk if m.endswith(("m15", "m16"))]
 n9 = [m for m in brk if m.endswith(("m17", "m18"))]
+n10 = [m for m in brk if m.endswith(("m19", "m20"))]
+p10 = [m for m in pre if m.endswith(("p17", "p18"))]
 p9 = [m for m in pre if m.endswith(("p15", "p16"))]
 p8 = [m for m in pre if m.endswith(("p13", "p14"))]
 p5 = [m for m in pre if m.endswith(("p7", "p8"))]
@@ -94,10 +96,10 @@ now_sil = lambda ms: sum(all(v[0] == 0 for v in M[m].values()) for m in ms)
 print()
 print("| round | breaking changes | caught by the own check at arrival | caught by some check at arrival | caught by the own check now | by some check now |")
 print("|---|---|---|---|---|---|")
-for nm, ms in (("1", n1), ("2", n2), ("3", n3), ("4", n4), ("5", n5), ("6", n6), ("7", n7), ("8", n8), ("9", n9)):
+for nm, ms in (("1", n1), ("2", n2), ("3", n3), ("4", n4), ("5", n5), ("6", n6), ("7", n7), ("8", n8), ("9", n9), ("10", n10)):
     print(f"| {nm} | {len(ms)} | {sum(first_caught(m) for m in ms)} | {sum(first_any(m) for m in ms)} | {now_own(ms)} | {now_any(ms)} |")
 print()
 print("| round | preserving refactorings | silent (all 20 checks) at arrival | silent now |")
 print("|---|---|---|---|")
-for nm, ms in (("2", p2), ("3", p3), ("4", p4), ("5", p5), ("6", p6), ("7", p7), ("8", p8), ("9", p9)):
+for nm, ms in (("2", p2), ("3", p3), ("4", p4), ("5", p5), ("6", p6), ("7", p7), ("8", p8), ("9", p9), ("10", p10)):
     print(f"| {nm} | {len(ms)} | {sum(first_silent(m) for m in ms)} | {now_sil(ms)} |")
